@@ -768,6 +768,22 @@ def _renamed_functions(functions):
         us = unknown.get(k, [])
         if len(ms) == 1 and len(us) == 1:
             out[us[0]] = ms[0]
+    # moved, not renamed: the same last name and signature in another module / impl block (unique both ways)
+    def last(n):
+        return re.sub(r"::<[^<>]*>", "", n).rsplit("::", 1)[-1]
+    m2, u2 = {}, {}
+    for (sc, tys, ret), ms in missing.items():
+        for n in ms:
+            if n not in out.values():
+                m2.setdefault((last(n), tys, ret), []).append(n)
+    for k, us in unknown.items():
+        for n in us:
+            if n not in out:
+                u2.setdefault((last(n),) + k[1:], []).append(n)
+    for k, ms in m2.items():
+        us = u2.get(k, [])
+        if len(ms) == 1 and len(us) == 1:
+            out[us[0]] = ms[0]
     return out
 
 
@@ -854,7 +870,8 @@ class Facts:
             self.j = json.load(fh)
         global ALIASES
         ALIASES = _aliases([f["name"] for f in self.j["functions"]])
-        for k_, v_ in _renamed_functions(self.j["functions"]).items():
+        renamed_ = _renamed_functions(self.j["functions"])
+        for k_, v_ in renamed_.items():
             ALIASES.setdefault(k_, v_)
         self.aliases = dict(ALIASES)
         self.fns = {}
@@ -863,6 +880,8 @@ class Facts:
             for old_, new_ in ALIASES.items():
                 if f["name"] == old_ or f["name"].startswith(old_ + "::{closure"):
                     f["alias_of"] = f["name"]
+                    if old_ in renamed_:
+                        f["alias_kind"] = "renamed"      # (same signature under another name: nothing about its parameters changed)
                     f["name"] = new_ + f["name"][len(old_):]
                     break
         try:
